@@ -143,6 +143,42 @@ func c06units(tier string) []mc.Unit {
 			r.Bound("tables", "all 25 table ids x 64 codons; all 2-codon strings; all tails; case masks; 3-codon splits")
 		}})
 	}
+	// the tables the library offers are still NCBI's after the combining operations were used on them
+	// (runs last in its own unit: what a call may leave behind in the package would show here)
+	us = append(us, mc.Unit{Name: "after-combining", Weight: 30, Run: func(r *mc.Recorder) {
+		var cnt int64
+		ids := c06ids()
+		for _, a := range ids {
+			for _, b := range []int{1, 2, 4, 11} {
+				if a == b {
+					continue
+				}
+				catch(func() {
+					codon.CompromiseCodonTable(codon.GetCodonTable(a), codon.GetCodonTable(b), 0.1)
+					codon.AddCodonTable(codon.GetCodonTable(a), codon.GetCodonTable(b))
+					codon.Translate("ATGAAATAA", codon.GetCodonTable(a))
+				})
+				cnt++
+			}
+		}
+		for _, id := range ids {
+			t := codon.GetCodonTable(id)
+			tbl := ncbiTable(id)
+			enumStrings("TCAG", 3, func(bb []byte) {
+				c06tr(r, id, t, tbl, string(bb), "codon-assignment-after-combining")
+			})
+			if ok, w, g := setEq(t.StartCodons, ncbiCodes[id].starts); !ok {
+				r.Failf("start-codons-after-combining", fmt.Sprint("table ", id, " after Compromise/Add calls on default tables"), nil, w, g)
+			}
+			if ok, w, g := setEq(t.StopCodons, ncbiCodes[id].stops); !ok {
+				r.Failf("stop-codons-after-combining", fmt.Sprint("table ", id, " after Compromise/Add calls on default tables"), nil, w, g)
+			}
+		}
+		r.Eval(cnt)
+		r.AddStates(cnt)
+		r.AddTransitions(cnt)
+		r.AddNontrivial(cnt)
+	}})
 	// ids the library must offer
 	us = append(us, mc.Unit{Name: "ids", Run: func(r *mc.Recorder) {
 		r.Bound("ids", fmt.Sprint(c06ids()))
